@@ -56,6 +56,20 @@ def evaluate(case, out):
     for cid, con in contests.items():
         con.cards = sum(1 for c in cvrs if c.has_contest(cid))
         con.cvrs = sum(1 for c in cvrs if c.has_contest(cid) and not c.phantom)
+    if case["seed"] % 4 == 1:
+        # the very same list was drawn from before under trial numbers (e.g. a rehearsal seed)
+        try:
+            for c, s in zip(cvrs, reversed(case["plan"]["sample_nums"])):
+                c.sample_num = s
+            for cid, con in contests.items():
+                con.sample_size = min(2, sum(1 for c in cvrs if c.has_contest(cid)))
+            CVR.consistent_sampling(cvrs, contests)
+            for c in cvrs:
+                c.sampled = False
+            out.cls("same-list-drawn-before-under-other-numbers")
+        except Exception as e:  # noqa
+            out.lib_exception("consistent_sampling(trial)", e)
+            return
     sizes = sa.apply_plan(case, case["plan"], cvrs, contests, min_size=0)
     nums = [c.sample_num for c in cvrs]
     order = sorted(range(len(cvrs)), key=lambda i: nums[i])
